@@ -4,7 +4,7 @@ C20 — `/.well-known/core` lists exactly the registered resources in any window
 
   S = Coap.LF.listing / selects / matchSpec   (RFC 6690; CoapVerif/Spec/LinkFormat.lean)
   M = Coap.M.LF.wellknown / matchM / hndBody  (transcription of src/coap_resource.c after the fix:
-      commits 82aaa05, 5e40d26, aa61e0b; CoapVerif/Model/LinkFormat.lean)
+      and of hnd_get_wellknown_lkd after its fix; CoapVerif/Model/LinkFormat.lean)
 
 Property theorems only; helper lemmas live in CoapVerif/Lemmas/LinkFormat.lean.  The only hypothesis
 is `buflen ≤ COAP_PRINT_STATUS_MAX` (the status word has 28 bits for the length; beyond that the
@@ -184,63 +184,47 @@ theorem block_get_reassembles (t : Table) (qf : Option Bytes) (sz : Nat) (hsz : 
     generalize ((listing t (qf.getD [])).length + sz - 1) % sz = m at *
     omega
 
-/-! ### the GET path: the query the handler receives (open finding `wkc-query-escaped`) -/
+/-! ### the GET path (hnd_get_wellknown_lkd after fix: the filter is the first Uri-Query option, undecorated) -/
 
-theorem escapeQuery_id (o : Bytes) (h : ∀ c ∈ o, isUnescapedInQuery c = true) : escapeQuery o = o := by
-  induction o with
+theorem getFilter_getD (opts : List Bytes) : (getFilter opts).getD [] = opts.head?.getD [] := by
+  cases opts with
   | nil => rfl
-  | cons c r ih =>
-    have hc := h c (by simp)
-    simp only [escapeQuery, hc, if_true]
-    rw [ih (fun x hx => h x (by simp [hx]))]
+  | cons o r =>
+    simp only [getFilter, List.head?_cons, Option.getD_some]
+    split
+    · rfl
+    · have : o = [] := List.eq_nil_of_length_eq_zero (by omega)
+      simp [this]
 
-/- Full statement (FALSE for the code as it is — `coap_get_query()` hands the handler the percent-ENCODED
-   query and the filter code compares it undecoded, see `get_query_escaped_witness`):
-
-     theorem get_reassembles (t) (opt : Option Bytes) (hl : (listing t (opt.getD [])).length ≤ STATUS_MAX) (sz) (hsz : 0 < sz) :
-       ∃ body, getBody t opt = R.ok body ∧
-         (List.range (nblocks body.length sz)).flatMap (block body sz) = listing t (opt.getD [])
-
-   Proved below for every query all of whose bytes `coap_get_query()` leaves alone (ALPHA DIGIT - . _ ~ ! $ ' ( ) * + , ; = : @ & / ?). -/
-
-/-- `GET /.well-known/core?<opt>` with any Block2 size reassembles to the listing — for queries without a byte that
-`coap_get_query()` escapes -/
-theorem get_reassembles_partial (t : Table) (opt : Option Bytes)
-    (hq : ∀ o, opt = some o → ∀ c ∈ o, isUnescapedInQuery c = true)
-    (hl : (listing t (opt.getD [])).length ≤ STATUS_MAX) (sz : Nat) (hsz : 0 < sz) :
-    ∃ body, getBody t opt = R.ok body ∧ body = listing t (opt.getD []) ∧
-      (List.range (nblocks body.length sz)).flatMap (block body sz) = listing t (opt.getD []) := by
-  have hgq : listing t ((getQuery opt).getD []) = listing t (opt.getD []) := by
-    cases opt with
-    | none => rfl
-    | some o =>
-      simp only [getQuery, escapeQuery_id o (hq o rfl)]
-      split
-      · rfl
-      · have : o = [] := List.eq_nil_of_length_eq_zero (by omega)
-        simp [this]
-  have hb : getBody t opt = R.ok (listing t (opt.getD [])) := by
-    unfold getBody
-    rw [get_body_eq_listing t (getQuery opt) (by rw [hgq]; exact hl), hgq]
+/-- (GET) `GET /.well-known/core` with any Uri-Query options — whatever bytes they contain — and any Block2 size:
+the body is the listing for the first option taken as the search criterion (D20.8), and the `nblocks` blocks
+reassemble to it -/
+theorem get_reassembles (t : Table) (opts : List Bytes)
+    (hl : (getListing t opts).length ≤ STATUS_MAX) (sz : Nat) (hsz : 0 < sz) :
+    ∃ body, getBody t opts = R.ok body ∧ body = getListing t opts ∧
+      (List.range (nblocks body.length sz)).flatMap (block body sz) = getListing t opts := by
+  have hb : getBody t opts = R.ok (getListing t opts) := by
+    unfold getBody getListing
+    rw [get_body_eq_listing t (getFilter opts) (by rw [getFilter_getD]; exact hl), getFilter_getD]
   refine ⟨_, hb, rfl, ?_⟩
   rw [blocks_tile, List.take_of_length_le]
   unfold nblocks
   split
   · omega
-  · have := Nat.div_add_mod ((listing t (opt.getD [])).length + sz - 1) sz
-    have hm := Nat.mod_lt ((listing t (opt.getD [])).length + sz - 1) hsz
+  · have := Nat.div_add_mod ((getListing t opts).length + sz - 1) sz
+    have hm := Nat.mod_lt ((getListing t opts).length + sz - 1) hsz
     rw [Nat.mul_comm]
-    generalize ((listing t (opt.getD [])).length + sz - 1) / sz = d at *
-    generalize ((listing t (opt.getD [])).length + sz - 1) % sz = m at *
+    generalize ((getListing t opts).length + sz - 1) / sz = d at *
+    generalize ((getListing t opts).length + sz - 1) % sz = m at *
     omega
 
-/-- witness of the open finding: `</t>;title="a b"` queried with `title=a b` (on the wire `?title=a%20b`):
-RFC 6690 selects the resource, the handler is given `title=a%20b` and lists nothing -/
-theorem get_query_escaped_witness :
+/-- regression of the former finding `wkc-query-escaped`: `</t>;title="a b"` queried with `?title=a%20b`
+(option bytes `title=a b`) is listed; a second Uri-Query option does not change the answer -/
+theorem get_query_with_space_listed :
     let t : Table := [⟨[0x74], [⟨[0x74, 0x69, 0x74, 0x6C, 0x65], some [0x22, 0x61, 0x20, 0x62, 0x22]⟩], false, false⟩]
     let q : Bytes := [0x74, 0x69, 0x74, 0x6C, 0x65, 0x3D, 0x61, 0x20, 0x62]
-    getBody t (some q) = R.ok [] ∧ listing t q ≠ [] ∧
-    getQuery (some q) = some [0x74, 0x69, 0x74, 0x6C, 0x65, 0x3D, 0x61, 0x25, 0x32, 0x30, 0x62] := by
+    getBody t [q] = R.ok (listing t []) ∧ listing t [] ≠ [] ∧ getBody t [q, [0x78]] = R.ok (listing t []) ∧
+    getBody t [[0x78, 0x3D], q] = R.ok [] := by
   decide
 
 /-! ### non-vacuity: concrete instances, and the behaviour the three `fix:` commits removed -/
